@@ -43,11 +43,18 @@ pub fn canonicalise(m: &mut GenMsg) -> Result<(), String> {
 
 pub fn error_tag(e: &LibErr) -> String {
     match e {
-        LibErr::Parse(ParseError::InvalidFieldFormat(b)) => format!("InvalidFieldFormat:{}", b.field_tag),
-        LibErr::Parse(ParseError::MissingRequiredField { field_tag, .. }) => format!("MissingRequiredField:{}", field_tag),
+        LibErr::Parse(ParseError::InvalidFieldFormat(b)) => {
+            format!("InvalidFieldFormat:{}", b.field_tag)
+        }
+        LibErr::Parse(ParseError::MissingRequiredField { field_tag, .. }) => {
+            format!("MissingRequiredField:{}", field_tag)
+        }
         LibErr::Parse(ParseError::InvalidFormat { message }) => {
             // keep only a coarse, line-number-free class of the message
-            let m: String = message.chars().take_while(|c| !c.is_ascii_digit() && *c != ':').collect();
+            let m: String = message
+                .chars()
+                .take_while(|c| !c.is_ascii_digit() && *c != ':')
+                .collect();
             format!("InvalidFormat:{}", m.trim())
         }
         LibErr::Parse(_) => "other".into(),
@@ -71,64 +78,116 @@ pub fn oracle(c: &MsgCase, obs: &mut Obs) -> Vec<Violation> {
         return out;
     }
     let text = msg.text(c.crlf, c.wrapper);
-    let nontrivial = msg.fields.iter().any(|f| !f.mandatory) || msg.fields.iter().any(|f| f.path.iter().any(|i| *i >= 1)) || msg.fields.iter().any(|f| f.n_options > 1);
+    if crate::refs::has_long_number(&text) {
+        obs.excluded("amount-beyond-f64-precision (C06 reports it)");
+        return out;
+    }
+    let nontrivial = msg.fields.iter().any(|f| !f.mandatory)
+        || msg.fields.iter().any(|f| f.path.iter().any(|i| *i >= 1))
+        || msg.fields.iter().any(|f| f.n_options > 1);
     if nontrivial {
         obs.nontrivial_str(&text);
     }
     obs.class(&format!("mt{}", mt));
     obs.class(if c.crlf { "crlf" } else { "lf" });
-    obs.class(if msg.fields.iter().any(|f| f.path.iter().any(|i| *i >= 1)) { "multi-occurrence" } else { "single-occurrence" });
+    obs.class(
+        if msg.fields.iter().any(|f| f.path.iter().any(|i| *i >= 1)) {
+            "multi-occurrence"
+        } else {
+            "single-occurrence"
+        },
+    );
     obs.sample(&format!("mt{mt}"), || json!({"mt": mt, "text": text}));
     let b = match (msg_ops(&mt).parse_block4)(&text) {
         Ok(b) => b,
         Err(e) => {
             if !e.is_panic() {
-                out.push(viol(format!("C03|MT{}|rejected|{}", mt, error_tag(&e)), format!("well-formed message rejected: {}\n{}", e.text(), text)));
+                out.push(viol(
+                    format!("C03|MT{}|rejected|{}", mt, error_tag(&e)),
+                    format!("well-formed message rejected: {}\n{}", e.text(), text),
+                ));
             }
             return out;
         }
     };
     // (3) byte-for-byte reproduction (line endings normalised)
     let (_, toks) = tokenize(&b.mt_string);
-    let want: Vec<(String, String)> = msg.fields.iter().map(|f| (f.tag.clone(), f.content.clone())).collect();
-    let got: Vec<(String, String)> = toks.iter().map(|t| (t.tag.clone(), t.content.clone())).collect();
+    let want: Vec<(String, String)> = msg
+        .fields
+        .iter()
+        .map(|f| (f.tag.clone(), f.content.clone()))
+        .collect();
+    let got: Vec<(String, String)> = toks
+        .iter()
+        .map(|t| (t.tag.clone(), t.content.clone()))
+        .collect();
     if want != got {
         let mut tag = "-".to_string();
         for i in 0..want.len().max(got.len()) {
             if want.get(i) != got.get(i) {
-                tag = want.get(i).map(|x| x.0.clone()).or(got.get(i).map(|x| x.0.clone())).unwrap_or_default();
+                tag = want
+                    .get(i)
+                    .map(|x| x.0.clone())
+                    .or(got.get(i).map(|x| x.0.clone()))
+                    .unwrap_or_default();
                 break;
             }
         }
-        out.push(viol(format!("C03|MT{}|text-differs|{}", mt, tag), format!("serialised text differs from the input at {tag}:\ninput:\n{}\noutput:\n{}", text, b.mt_string)));
+        out.push(viol(
+            format!("C03|MT{}|text-differs|{}", mt, tag),
+            format!(
+                "serialised text differs from the input at {tag}:\ninput:\n{}\noutput:\n{}",
+                text, b.mt_string
+            ),
+        ));
     }
     // (2) the model exposes the written component values, per tag and sequence occurrence
     let mut occ = Vec::new();
     json_occurrences(&b.json, &mut Vec::new(), &mut occ);
     let mut used = vec![false; occ.len()];
     for f in &msg.fields {
-        let mut found = None;
-        for (i, (p, t, _)) in occ.iter().enumerate() {
-            if !used[i] && *p == f.path && *t == f.tag {
-                found = Some(i);
-                break;
-            }
+        // candidates: unused occurrences of that tag in that sequence occurrence
+        // (an untagged option enum is keyed by the bare field number: `25` for `25P`)
+        let cands: Vec<usize> = occ
+            .iter()
+            .enumerate()
+            .filter(|(i, (p, t, _))| {
+                !used[*i]
+                    && *p == f.path
+                    && (*t == f.tag || (t.len() == 2 && f.tag.starts_with(t.as_str())))
+            })
+            .map(|(i, _)| i)
+            .collect();
+        if cands.is_empty() {
+            out.push(viol(format!("C03|MT{}|not-exposed|{}", mt, f.tag), format!("field {} (sequence path {:?}) written but not exposed under that key/occurrence in {}", f.tag, f.path, b.json)));
+            continue;
         }
-        match found {
+        // keys of one tag are not ordered in the JSON object (`34F_credit` sorts before `34F_debit`): any
+        // unused occurrence exposing exactly these components will do
+        match cands
+            .iter()
+            .find(|i| components_exposed(&f.comps, &occ[**i].2).is_ok())
+        {
+            Some(i) => used[*i] = true,
             None => {
-                out.push(viol(format!("C03|MT{}|not-exposed|{}", mt, f.tag), format!("field {} (sequence path {:?}) written but not exposed under that key/occurrence in {}", f.tag, f.path, b.json)));
-            }
-            Some(i) => {
-                used[i] = true;
-                if let Err(d) = components_exposed(&f.comps, &occ[i].2) {
-                    out.push(viol(format!("C03|MT{}|value-mismatch|{}", mt, f.tag), format!("{} ; field content {:?}", d, f.content)));
-                }
+                used[cands[0]] = true;
+                let d = components_exposed(&f.comps, &occ[cands[0]].2).unwrap_err();
+                out.push(viol(
+                    format!("C03|MT{}|value-mismatch|{}", mt, f.tag),
+                    format!("{} ; field content {:?}", d, f.content),
+                ));
             }
         }
     }
     for (i, (p, t, v)) in occ.iter().enumerate() {
         if !used[i] {
-            out.push(viol(format!("C03|MT{}|extra|{}", mt, t), format!("model exposes {} at {:?} = {} which was not written", t, p, v)));
+            out.push(viol(
+                format!("C03|MT{}|extra|{}", mt, t),
+                format!(
+                    "model exposes {} at {:?} = {} which was not written",
+                    t, p, v
+                ),
+            ));
         }
     }
     let _ = Value::Null;
@@ -140,7 +199,15 @@ pub fn run(ctx: &Ctx) {
     ctx.assume("layout table transcribed from struct docs / documented parse order of /repo/src/messages and SR2025; where they differ the library's documentation is followed");
     ctx.assume("numeric components are first put into the field's own canonical spelling by that field's parse/to_swift_string; messages containing a field whose own parser mishandles the content are excluded (counted) — that is C05's finding");
     let to_json = |c: &MsgCase| serde_json::to_value(c).unwrap();
-    ctx.run_generated("layout", MSGS.len(), ctx.n(1500, 40000), 1500, &|sh, src: &mut Src| generate(mt_of_shard(sh), src), &oracle, &to_json);
+    ctx.run_generated(
+        "layout",
+        MSGS.len(),
+        ctx.n(1500, 40000),
+        1500,
+        &|sh, src: &mut Src| generate(mt_of_shard(sh), src),
+        &oracle,
+        &to_json,
+    );
 }
 
 pub fn replay(_ctx: &Ctx, _sub: &str, case: &Value) -> Vec<Violation> {
